@@ -755,11 +755,20 @@ def correspondence(ctx):
         rnd = pool.map(_work, [(ctx.seed, i, use_model, base, None, ctx.tier != 'quick') for i in range(n)],
                        chunksize=1)
         outs += scripted.get() + rnd
-    return collect(res, outs)
+    res = collect(res, outs)
+    # the git rules behind "every update is a fast-forward" (a non-forced push accepts creations and fast-forwards
+    # only, `--prune` deletes what has no local counterpart), against Bert-E's git layer on real git
+    from . import gittie
+    gittie.run(ctx, res, (16 if ctx.tier == 'quick' else 400) * ctx.scale, oracles=('ff',))
+    return res
 
 
 def replay(ctx, payload):
     from .system import Config
+    from . import gittie
+    g = gittie.replay_input(payload)
+    if g is not None:
+        return gittie.replay(ctx, Result(), g, oracles=('ff',))
     inp = payload['failure']['input'] if 'failure' in payload else payload['input']
     cfgd = dict(inp['cfg'])
     cfg = Config(cfgd.pop('dests'), **cfgd)
